@@ -40,6 +40,15 @@ def cases():
         # undefined reference, another macro defined
         out.append({"id": f"undefined/{kind}/file", "feature": f"undef_{kind}", "expect": "error", "name": "@ref", "pattern": pat, "macros": [OTHER], "where": "file"})
         out.append({"id": f"undefined/{kind}/extra", "feature": f"undef_{kind}", "expect": "error", "name": "@ref", "pattern": pat, "macros": [OTHER], "where": "extra"})
+        # ... and the same while the rule uses NONE of the defined macros (nothing gets expanded at all)
+        def _no_other(n):
+            if isinstance(n, list):
+                return [_no_other(x) for x in n]
+            if isinstance(n, dict):
+                return {k: _no_other(v) for k, v in n.items()}
+            return "ret" if n == "@other" else n
+        for where in ("file", "extra"):
+            out.append({"id": f"undefined/{kind}/unused_definition/{where}", "feature": f"undef_{kind}", "expect": "error", "name": "@ref", "pattern": _no_other(pat), "macros": [OTHER], "where": where})
     # reference inside another macro's body
     body_outer = {"name": "@outer", "pattern": [{"mov": ["@inner", "b"]}]}
     inner = {"name": "@inner", "pattern": "a"}
